@@ -681,3 +681,41 @@ Definition C07_layout_view_full : Prop := forall numtxt keepc w e i,
   let O := printer_oracles FX_ALL (policy_new fixed_opinfo) numtxt keepc in
   tok_ok O e = true ->
   lview (Formatter.render (Formatter.fmtd O w e i)) = lview (print_text FX_ALL (policy_new fixed_opinfo) numtxt e).
+
+(* (3) Families closed at the TEXT level (proofs/FmtToksBin.v).  Binary operators (all three arms of
+   format_binary_op_multiline incl. via/into/where), conditionals (both arms and the else-if chain of
+   format_conditional_multiline) and assignment: for trees whose laid-out part consists of these (`binfam`:
+   their operands are again of these kinds, or nodes always printed through expr_to_source — literals, names,
+   prefix / postfix operators, index, field), ANY printer version and policy, every width and indentation, the
+   laid-out text has exactly the chunks of the one-line text — already before `canon` (this fragment has no
+   trailing comma and no lambda), hence the same view.  No wf / lam_ok / cr_free hypothesis is needed.
+   PARTIAL with respect to C07_layout_view_full: list / record / call (trailing comma: canon), lambda (`x =>`
+   vs `(x) =>`: canon) and do-block (protect_leading_minus against the one-line printer's dominus rule: needs
+   lead_fmtd of FmtItems.v) are open. *)
+Require Import Blots.proofs.FmtToksBin.
+Theorem C07_layout_view_operators_conditionals_partial : forall fx pol numtxt keepc w e i,
+  binfam e = true -> tok_ok (printer_oracles fx pol numtxt keepc) e = true ->
+  toks (Formatter.render (Formatter.fmtd (printer_oracles fx pol numtxt keepc) w e i)) = toks (print_text fx pol numtxt e) /\
+  lview (Formatter.render (Formatter.fmtd (printer_oracles fx pol numtxt keepc) w e i)) = lview (print_text fx pol numtxt e).
+Proof.
+  intros fx pol numtxt keepc w e i Hb Hk. split.
+  - exact (binfam_toks fx pol numtxt keepc w e Hb Hk i).
+  - exact (binfam_lview fx pol numtxt keepc w e i Hb Hk).
+Qed.
+Check C07_layout_view_operators_conditionals_partial : forall fx pol numtxt keepc w e i,
+  binfam e = true -> tok_ok (printer_oracles fx pol numtxt keepc) e = true ->
+  toks (Formatter.render (Formatter.fmtd (printer_oracles fx pol numtxt keepc) w e i)) = toks (print_text fx pol numtxt e) /\
+  lview (Formatter.render (Formatter.fmtd (printer_oracles fx pol numtxt keepc) w e i)) = lview (print_text fx pol numtxt e).
+Print Assumptions C07_layout_view_operators_conditionals_partial.
+
+(* hypotheses satisfiable, layouts taken:
+   r = if a + b > c then (a - b) * c else if ok then -a ^ 2 else "x // y"   at width 10 *)
+Example C07_example_operators_conditionals :
+  let O := printer_oracles FX_ALL (policy_new fixed_opinfo) num_text true in
+  let e := EAssign "r" (ECond (EBin Greater (EBin Add (EId "a") (EId "b")) (EId "c"))
+                              (EBin Multiply (EBin Subtract (EId "a") (EId "b")) (EId "c"))
+                              (ECond (EId "ok") (EBin Power (EUn Negate (EId "a")) (ENum nzero))
+                                     (EStr "x // y"))) in
+  binfam e = true /\ tok_ok O e = true /\ wf e = true /\
+  Formatter.contains_nl (Formatter.render (Formatter.fmtd O 10 e 0)) = true.
+Proof. vm_compute. repeat split. Qed.
